@@ -66,3 +66,4 @@ uint32_t __vf_atexit(void *f){ return 0; }   /* destructors of statics at proces
 void __vf_global_ctors(void);
 void harness(void);
 int main(void){ __vf_global_ctors(); harness(); return 0; }
+void *__vf_memcpy_loop(void *d, const void *s, size_t n){ for (size_t i = 0; i < n; i++) ((char*)d)[i] = ((const char*)s)[i]; return d; }
